@@ -179,7 +179,7 @@ if __name__ == "__main__":
         "basicBus.lk protects only non-blocking sections since fix 8aeecd5 (withNode: lookup + pending++; tryDropNode: pending/TryLock check), each modelled as one atomic step; metrics/logging ignored; the 1 s slow-consumer timer only logs (exercised in the harness under virtual time, not modelled)",
         "a Go channel is a FIFO holding at most cap + (number of waiting receivers) items; the Close drainer is a permanently waiting receiver",
         "types of one Subscribe call are distinct; event values are distinguishable (unique ids); one Close call per subscription (closeOnce not modelled)",
-        "liveness is a state-predicate progress lemma (no_deadlock_partial), not full liveness under fairness (DESIGN.md section 10); it covers node locks and the wildcard read lock, and the bus lock is proved never held across a step; the wildcard write-lock chain (pending writer waits for the readers counted in rdrs), wildcard Close's wait for its drainer and the index/existence side conditions are only exercised by the correspondence (monitor rule 12: every started operation returns once all subscriptions are closed) and by the fixed corpus case of the repaired bus-lock deadlock (30/100 attempts per run)",
+        "no deadlock is proved as a state-predicate progress theorem (c15_no_deadlock: every reachable state with an unfinished operation has an enabled non-stimulus step, given that every full open channel has a receive pending or is being closed), not as liveness under fairness (DESIGN.md section 10)",
         "only covered by the correspondence + monitor, not by a theorem: the monitor itself accepting every model trace (no headline theorem `monitor (trace) = ok`); Emitter.Close/closed-emitter error path; node drop semantics of `stateful` (DESIGN.md section 9 item 12: the monitor demands the retained event only while a stateful emitter of the type stayed open)",
         "exactly-once is stated per occurrence of the sink in n.sinks; that a subscription is listed at most once per node follows from distinct types per Subscribe call (hypothesis of the theorem reading, not proved: c15_nothing_before_join / c15_stateful_replay_first take `~ In n (snodes c)`)",
         "harness quiescence detection reads goroutine states (runtime.Stack) inside the synctest bubble because synctest.Wait does not treat sync.Mutex waits as durable blocks; monitor rules 4, 9, 10 rely on that quiescence between stimuli",
